@@ -75,23 +75,23 @@ open Spec
 def lp (cap : Bool) : Str := if cap then [40] else [40, 63, 58]
 
 /-- is the sub-expression put in a group? (the test of `fmtSub`) -/
-def parenQ (cap : Bool) (outer : Nat) (e : Expr) : Bool :=
-  decide (e.precedence < outer) && !e.isSingleCodepoint (cfgPlain cap)
+def parenQ (cap esc : Bool) (outer : Nat) (e : Expr) : Bool :=
+  decide (e.precedence < outer) && !e.isSingleCodepoint (cfgPlain cap esc)
 
-theorem fmtSub_eq (cap : Bool) (outer : Nat) (fb : Bool) (e : Expr) :
-    fmtSub (cfgPlain cap) outer fb e =
-      if parenQ cap outer e then lp cap ++ (fmtExpr (cfgPlain cap) e ++ [41]) else fmtExpr (cfgPlain cap) e := by
+theorem fmtSub_eq (cap esc : Bool) (outer : Nat) (fb : Bool) (e : Expr) :
+    fmtSub (cfgPlain cap esc) outer fb e =
+      if parenQ cap esc outer e then lp cap ++ (fmtExpr (cfgPlain cap esc) e ++ [41]) else fmtExpr (cfgPlain cap esc) e := by
   rw [fmtSub]
-  by_cases hc : parenQ cap outer e = true
-  · have hc' : (decide (e.precedence < outer) && !e.isSingleCodepoint (cfgPlain cap)) = true := hc
+  by_cases hc : parenQ cap esc outer e = true
+  · have hc' : (decide (e.precedence < outer) && !e.isSingleCodepoint (cfgPlain cap esc)) = true := hc
     rw [if_pos hc, if_pos hc']
     cases cap <;> simp [Comp.paren, Comp.leftParen, Comp.rightParen, cfgPlain, paint, lp, Gen.strCapturedLeftParen,
       Gen.strUncapturedLeftParen, Gen.strRightParen]
-  · have hc' : ¬ (decide (e.precedence < outer) && !e.isSingleCodepoint (cfgPlain cap)) = true := hc
+  · have hc' : ¬ (decide (e.precedence < outer) && !e.isSingleCodepoint (cfgPlain cap esc)) = true := hc
     rw [if_neg hc, if_neg hc']
 
-theorem subOf_eq (cap : Bool) (outer : Nat) (e : Expr) (its : List Pat) (bd : Pat) :
-    subOf cap outer e its bd = if parenQ cap outer e then [Pat.grp cap bd] else its := rfl
+theorem subOf_eq (cap esc : Bool) (outer : Nat) (e : Expr) (its : List Pat) (bd : Pat) :
+    subOf cap esc outer e its bd = if parenQ cap esc outer e then [Pat.grp cap bd] else its := rfl
 
 theorem R_lp (cap : Bool) : R (lp cap) = lp cap := by cases cap <;> decide
 
@@ -119,78 +119,78 @@ theorem headOK'_append_left {a : Str} (b : Str) (ha : HeadOK' a) : HeadOK' (a ++
 
 /-! ### token counts -/
 
-def subTok (cap : Bool) (outer : Nat) (e : Expr) (ti tb : Nat) : Nat := if parenQ cap outer e then tb + 2 else ti
+def subTok (cap esc : Bool) (outer : Nat) (e : Expr) (ti tb : Nat) : Nat := if parenQ cap esc outer e then tb + 2 else ti
 
 mutual
 /-- rounds of the parser loop spent on the text of `e` (as items, as the body of a group) -/
-def Expr.toks (cap : Bool) : Expr → Nat × Nat
+def Expr.toks (cap esc : Bool) : Expr → Nat × Nat
   | .lit c => ((atomsOf c).length, (atomsOf c).length)
   | .cls _ => (1, 1)
   | .cat a b =>
-    let ra := Expr.toks cap a
-    let rb := Expr.toks cap b
-    let n := subTok cap 2 a ra.1 ra.2 + subTok cap 2 b rb.1 rb.2
+    let ra := Expr.toks cap esc a
+    let rb := Expr.toks cap esc b
+    let n := subTok cap esc 2 a ra.1 ra.2 + subTok cap esc 2 b rb.1 rb.2
     (n, n)
   | .rep e _ =>
-    let r := Expr.toks cap e
-    let n := subTok cap 3 e r.1 r.2 + 1
+    let r := Expr.toks cap esc e
+    let n := subTok cap esc 3 e r.1 r.2 + 1
     (n, n)
-  | .alt os => (0, Expr.toksL cap os)
-def Expr.toksL (cap : Bool) : List Expr → Nat
+  | .alt os => (0, Expr.toksL cap esc os)
+def Expr.toksL (cap esc : Bool) : List Expr → Nat
   | [] => 0
-  | o :: os => (Expr.toks cap o).1 + (if os.isEmpty then 0 else 1) + Expr.toksL cap os
+  | o :: os => (Expr.toks cap esc o).1 + (if os.isEmpty then 0 else 1) + Expr.toksL cap esc os
 end
 
 /-- does the text of `e` end with a quantifier (after which the parser looks ahead for a lazy marker)? -/
-def Expr.endsQ (cap : Bool) : Expr → Bool
+def Expr.endsQ (cap esc : Bool) : Expr → Bool
   | .rep _ _ => true
-  | .cat a b => (!(parenQ cap 2 a) && Expr.endsQ cap a) || (!(parenQ cap 2 b) && Expr.endsQ cap b)
+  | .cat a b => (!(parenQ cap esc 2 a) && Expr.endsQ cap esc a) || (!(parenQ cap esc 2 b) && Expr.endsQ cap esc b)
   | _ => false
 
 /-! ### what the induction carries for one expression -/
 
-structure PP (cap : Bool) (e : Expr) : Prop where
+structure PP (cap esc : Bool) (e : Expr) : Prop where
   items : e.isAlt = false → ∀ (f : Nat) (rest : List Nat) (st : List Frame) (al co : List Pat),
-    (e.endsQ cap = true → rest.head? ≠ some 63) →
-    parseLoop false (f + (e.toks cap).1) (R (fmtExpr (cfgPlain cap) e) ++ rest) st al co =
-      parseLoop false f rest st al ((e.both cap).1.reverse ++ co)
+    (e.endsQ cap esc = true → rest.head? ≠ some 63) →
+    parseLoop false (f + (e.toks cap esc).1) (R (fmtExpr (cfgPlain cap esc) e) ++ rest) st al co =
+      parseLoop false f rest st al ((e.both cap esc).1.reverse ++ co)
   body : ∀ (f : Nat) (rest : List Nat) (fr : Frame) (st : List Frame),
-    parseLoop false (f + ((e.toks cap).2 + 1)) (R (fmtExpr (cfgPlain cap) e) ++ 41 :: rest) (fr :: st) [] [] =
-      parseLoop false f rest st fr.alts (Pat.grp fr.capturing (e.both cap).2 :: fr.concat)
-  head : HeadOK (R (fmtExpr (cfgPlain cap) e))
-  len1 : e.isAlt = false → (e.toks cap).1 ≤ (R (fmtExpr (cfgPlain cap) e)).length
-  len2 : (e.toks cap).2 ≤ (R (fmtExpr (cfgPlain cap) e)).length
+    parseLoop false (f + ((e.toks cap esc).2 + 1)) (R (fmtExpr (cfgPlain cap esc) e) ++ 41 :: rest) (fr :: st) [] [] =
+      parseLoop false f rest st fr.alts (Pat.grp fr.capturing (e.both cap esc).2 :: fr.concat)
+  head : HeadOK (R (fmtExpr (cfgPlain cap esc) e))
+  len1 : e.isAlt = false → (e.toks cap esc).1 ≤ (R (fmtExpr (cfgPlain cap esc) e)).length
+  len2 : (e.toks cap esc).2 ≤ (R (fmtExpr (cfgPlain cap esc) e)).length
 
 theorem closeFrame_nil (its : List Pat) : closeFrame [] its.reverse = catList its := by
   simp [closeFrame, altList]
 
 /-- for an expression that is not an alternation the group body follows from the items -/
-theorem body_of_items (cap : Bool) (e : Expr) (hna : e.isAlt = false)
-    (hb : (e.both cap).2 = catList (e.both cap).1) (ht : (e.toks cap).2 = (e.toks cap).1)
+theorem body_of_items (cap esc : Bool) (e : Expr) (hna : e.isAlt = false)
+    (hb : (e.both cap esc).2 = catList (e.both cap esc).1) (ht : (e.toks cap esc).2 = (e.toks cap esc).1)
     (hi : ∀ (f : Nat) (rest : List Nat) (st : List Frame) (al co : List Pat),
-      (e.endsQ cap = true → rest.head? ≠ some 63) →
-      parseLoop false (f + (e.toks cap).1) (R (fmtExpr (cfgPlain cap) e) ++ rest) st al co =
-        parseLoop false f rest st al ((e.both cap).1.reverse ++ co))
+      (e.endsQ cap esc = true → rest.head? ≠ some 63) →
+      parseLoop false (f + (e.toks cap esc).1) (R (fmtExpr (cfgPlain cap esc) e) ++ rest) st al co =
+        parseLoop false f rest st al ((e.both cap esc).1.reverse ++ co))
     (f : Nat) (rest : List Nat) (fr : Frame) (st : List Frame) :
-    parseLoop false (f + ((e.toks cap).2 + 1)) (R (fmtExpr (cfgPlain cap) e) ++ 41 :: rest) (fr :: st) [] [] =
-      parseLoop false f rest st fr.alts (Pat.grp fr.capturing (e.both cap).2 :: fr.concat) := by
-  have : f + ((e.toks cap).2 + 1) = (f + 1) + (e.toks cap).1 := by rw [ht]; omega
+    parseLoop false (f + ((e.toks cap esc).2 + 1)) (R (fmtExpr (cfgPlain cap esc) e) ++ 41 :: rest) (fr :: st) [] [] =
+      parseLoop false f rest st fr.alts (Pat.grp fr.capturing (e.both cap esc).2 :: fr.concat) := by
+  have : f + ((e.toks cap esc).2 + 1) = (f + 1) + (e.toks cap esc).1 := by rw [ht]; omega
   rw [this, hi (f + 1) (41 :: rest) (fr :: st) [] [] (by intro _; simp), step_rparen, List.append_nil, closeFrame_nil, hb]
 
 /-! ### sub-expressions -/
 
-theorem sub_parse (cap : Bool) (outer : Nat) (fb : Bool) (e : Expr) (hP : PP cap e)
-    (halt : e.isAlt = true → parenQ cap outer e = true)
+theorem sub_parse (cap esc : Bool) (outer : Nat) (fb : Bool) (e : Expr) (hP : PP cap esc e)
+    (halt : e.isAlt = true → parenQ cap esc outer e = true)
     (f : Nat) (rest : List Nat) (st : List Frame) (al co : List Pat)
-    (hq : (!(parenQ cap outer e) && e.endsQ cap) = true → rest.head? ≠ some 63) :
-    parseLoop false (f + subTok cap outer e (e.toks cap).1 (e.toks cap).2) (R (fmtSub (cfgPlain cap) outer fb e) ++ rest) st al co =
-      parseLoop false f rest st al ((subOf cap outer e (e.both cap).1 (e.both cap).2).reverse ++ co) := by
+    (hq : (!(parenQ cap esc outer e) && e.endsQ cap esc) = true → rest.head? ≠ some 63) :
+    parseLoop false (f + subTok cap esc outer e (e.toks cap esc).1 (e.toks cap esc).2) (R (fmtSub (cfgPlain cap esc) outer fb e) ++ rest) st al co =
+      parseLoop false f rest st al ((subOf cap esc outer e (e.both cap esc).1 (e.both cap esc).2).reverse ++ co) := by
   rw [fmtSub_eq, subOf_eq, subTok]
-  by_cases hp : parenQ cap outer e = true
+  by_cases hp : parenQ cap esc outer e = true
   · simp only [hp, ite_true, R_append, R_lp, List.append_assoc]
     have hR41 : R [41] = [41] := by decide
     rw [hR41]
-    have hfuel : f + ((e.toks cap).2 + 2) = (f + ((e.toks cap).2 + 1)) + 1 := by omega
+    have hfuel : f + ((e.toks cap esc).2 + 2) = (f + ((e.toks cap esc).2 + 1)) + 1 := by omega
     rw [hfuel]
     cases cap with
     | true =>
@@ -201,7 +201,7 @@ theorem sub_parse (cap : Bool) (outer : Nat) (fb : Bool) (e : Expr) (hP : PP cap
       simp only [lp, Bool.false_eq_true, ite_false, List.cons_append, List.nil_append, List.singleton_append]
       rw [step_lparen_noncap, hP.body]
       simp
-  · have hp' : parenQ cap outer e = false := by simpa using hp
+  · have hp' : parenQ cap esc outer e = false := by simpa using hp
     simp only [hp', Bool.false_eq_true, ite_false]
     have hna : e.isAlt = false := by
       cases h : e.isAlt with
@@ -209,26 +209,26 @@ theorem sub_parse (cap : Bool) (outer : Nat) (fb : Bool) (e : Expr) (hP : PP cap
       | true => rw [halt h] at hp'; cases hp'
     exact hP.items hna f rest st al co (fun h => hq (by simp [hp', h]))
 
-theorem sub_head (cap : Bool) (outer : Nat) (fb : Bool) (e : Expr) (hP : PP cap e) : HeadOK (R (fmtSub (cfgPlain cap) outer fb e)) := by
+theorem sub_head (cap esc : Bool) (outer : Nat) (fb : Bool) (e : Expr) (hP : PP cap esc e) : HeadOK (R (fmtSub (cfgPlain cap esc) outer fb e)) := by
   rw [fmtSub_eq]
   split
   · apply HeadOK'.ok
     rw [R_append, R_lp]
     cases cap
-    · exact ⟨40, [63, 58] ++ R (fmtExpr (cfgPlain false) e ++ [41]), rfl, by decide⟩
-    · exact ⟨40, [] ++ R (fmtExpr (cfgPlain true) e ++ [41]), rfl, by decide⟩
+    · exact ⟨40, [63, 58] ++ R (fmtExpr (cfgPlain false esc) e ++ [41]), rfl, by decide⟩
+    · exact ⟨40, [] ++ R (fmtExpr (cfgPlain true esc) e ++ [41]), rfl, by decide⟩
   · exact hP.head
 
-theorem sub_len (cap : Bool) (outer : Nat) (fb : Bool) (e : Expr) (hP : PP cap e) (halt : e.isAlt = true → parenQ cap outer e = true) :
-    subTok cap outer e (e.toks cap).1 (e.toks cap).2 ≤ (R (fmtSub (cfgPlain cap) outer fb e)).length := by
+theorem sub_len (cap esc : Bool) (outer : Nat) (fb : Bool) (e : Expr) (hP : PP cap esc e) (halt : e.isAlt = true → parenQ cap esc outer e = true) :
+    subTok cap esc outer e (e.toks cap esc).1 (e.toks cap esc).2 ≤ (R (fmtSub (cfgPlain cap esc) outer fb e)).length := by
   rw [fmtSub_eq, subTok]
-  by_cases hp : parenQ cap outer e = true
+  by_cases hp : parenQ cap esc outer e = true
   · simp only [hp, ite_true, R_append, R_lp, List.length_append]
     have := hP.len2
     have h41 : (R [41]).length = 1 := by decide
     have hlp : 1 ≤ (lp cap).length := by cases cap <;> simp [lp]
     omega
-  · have hp' : parenQ cap outer e = false := by simpa using hp
+  · have hp' : parenQ cap esc outer e = false := by simpa using hp
     simp only [hp', Bool.false_eq_true, ite_false]
     have hna : e.isAlt = false := by
       cases h : e.isAlt with
@@ -261,8 +261,15 @@ theorem pc_head (x : Nat) (hx : x ≠ 92) : HeadOK' (pc x) := by
     rw [pc_raw x hs]
     exact ⟨x, [], rfl, by omega⟩
 
-theorem R_escape_head (as : List Atom) (hne : as ≠ []) (hb : AtomsOK as) : HeadOK' (R (escapeSymbols (untok as))) := by
-  rw [R_escapeSymbols as hb]
+theorem pcE_head (esc : Bool) (x : Nat) (hx : x ≠ 92) : HeadOK' (pcE esc x) := by
+  by_cases h : x < 128
+  · rw [pcE_ascii esc x h]; exact pc_head x hx
+  · cases esc with
+    | false => rw [pcE_false]; exact pc_head x hx
+    | true => rw [pcE_nonascii x (by omega)]; exact ⟨92, _, rfl, by decide⟩
+
+theorem R_escape_head (esc : Bool) (as : List Atom) (hne : as ≠ []) (hb : AtomsOK as) : HeadOK' (R (E esc (escapeSymbols (untok as)))) := by
+  rw [R_escapeSymbols esc as hb]
   split
   · exact ⟨92, [92], rfl, by decide⟩
   · rename_i hs
@@ -275,12 +282,12 @@ theorem R_escape_head (as : List Atom) (hne : as ≠ []) (hb : AtomsOK as) : Hea
         | chr x =>
           have hx : x ≠ 92 := (hb _ List.mem_cons_self).1
           simp only [untok, List.flatMap_cons]
-          exact headOK'_append_left _ (pc_head x hx)
+          exact headOK'_append_left _ (pcE_head esc x hx)
         | cls k n =>
-          simp only [untok, List.flatMap_cons, pc_92]
+          simp only [untok, List.flatMap_cons, pcE_92]
           exact ⟨92, _, rfl, by decide⟩
 
-theorem flatMap_pc_len (as : List Atom) (hb : ∀ a ∈ as, AtomOK a) : as.length ≤ ((untok as).flatMap pc).length := by
+theorem flatMap_pc_len (esc : Bool) (as : List Atom) (hb : ∀ a ∈ as, AtomOK a) : as.length ≤ ((untok as).flatMap (pcE esc)).length := by
   induction as with
   | nil => simp [untok]
   | cons a r ih =>
@@ -288,54 +295,54 @@ theorem flatMap_pc_len (as : List Atom) (hb : ∀ a ∈ as, AtomOK a) : as.lengt
     cases a with
     | chr x =>
       have hx : x ≠ 92 := (hb _ List.mem_cons_self).1
-      obtain ⟨c, t, hp, _⟩ := pc_head x hx
+      obtain ⟨c, t, hp, _⟩ := pcE_head esc x hx
       simp only [untok, List.flatMap_cons, List.length_append, List.length_cons, hp]
       omega
     | cls k n =>
-      simp only [untok, List.flatMap_cons, List.length_append, List.length_cons, pc_92, pc_letter, List.length_nil]
+      simp only [untok, List.flatMap_cons, List.length_append, List.length_cons, pcE_92, pcE_letter, List.length_nil]
       omega
 
-theorem R_escape_len (as : List Atom) (hb : AtomsOK as) : as.length ≤ (R (escapeSymbols (untok as))).length := by
-  rw [R_escapeSymbols as hb]
+theorem R_escape_len (esc : Bool) (as : List Atom) (hb : AtomsOK as) : as.length ≤ (R (E esc (escapeSymbols (untok as)))).length := by
+  rw [R_escapeSymbols esc as hb]
   split
   · rename_i hs; subst hs; decide
   · rename_i hs
     rcases hb with hb | hb
     · exact absurd hb hs
-    · exact flatMap_pc_len as hb
+    · exact flatMap_pc_len esc as hb
 
-theorem R_fmtLiteral (cap : Bool) (c : Cluster) (h : PlainBs c) :
-    R (fmtLiteral (cfgPlain cap) c) = c.flatMap (fun g => R (escapeSymbols g.value)) := by
-  rw [fmtLiteral_plain cap c h, R_flatMap]
+theorem R_fmtLiteral (cap esc : Bool) (c : Cluster) (h : PlainBs c) :
+    R (fmtLiteral (cfgPlain cap esc) c) = c.flatMap (fun g => R (E esc (escapeSymbols g.value))) := by
+  rw [fmtLiteral_plain cap esc c h, R_flatMap]
 
-theorem literal_head (cap : Bool) (c : Cluster) (h : PlainBs c) : HeadOK (R (fmtLiteral (cfgPlain cap) c)) := by
-  rw [R_fmtLiteral cap c h]
+theorem literal_head (cap esc : Bool) (c : Cluster) (h : PlainBs c) : HeadOK (R (fmtLiteral (cfgPlain cap esc) c)) := by
+  rw [R_fmtLiteral cap esc c h]
   cases c with
   | nil => exact headOK_nil
   | cons g gs =>
     obtain ⟨as, hne, hb, rfl⟩ := h _ List.mem_cons_self
     simp only [List.flatMap_cons, value_ofStr]
-    exact (headOK'_append_left _ (R_escape_head as hne hb)).ok
+    exact (headOK'_append_left _ (R_escape_head esc as hne hb)).ok
 
-theorem literal_len (cap : Bool) (c : Cluster) (h : PlainBs c) : (atomsOf c).length ≤ (R (fmtLiteral (cfgPlain cap) c)).length := by
-  rw [R_fmtLiteral cap c h]
+theorem literal_len (cap esc : Bool) (c : Cluster) (h : PlainBs c) : (atomsOf c).length ≤ (R (fmtLiteral (cfgPlain cap esc) c)).length := by
+  rw [R_fmtLiteral cap esc c h]
   induction c with
   | nil => simp [atomsOf]
   | cons g gs ih =>
     obtain ⟨as, hne, hb, rfl⟩ := h _ List.mem_cons_self
     have := ih (fun x hx => h x (List.mem_cons_of_mem _ hx))
-    have := R_escape_len as hb
+    have := R_escape_len esc as hb
     rw [atomsOf_cons as hb gs]
     simp only [List.flatMap_cons, List.length_append, value_ofStr] at *
     omega
 
 /-- the operand of `?` contributes exactly one quantifiable item -/
-theorem subOf3_single (cap : Bool) (e : Expr) (hwf : e.WF) (hnr : e.isRep = false) :
-    ∃ p, subOf cap 3 e (e.both cap).1 (e.both cap).2 = [p] ∧ Quantifiable p := by
+theorem subOf3_single (cap esc : Bool) (e : Expr) (hwf : e.WF) (hnr : e.isRep = false) :
+    ∃ p, subOf cap esc 3 e (e.both cap esc).1 (e.both cap esc).2 = [p] ∧ Quantifiable p := by
   rw [subOf_eq]
-  by_cases hp : parenQ cap 3 e = true
-  · exact ⟨Pat.grp cap (e.both cap).2, by simp [hp], by simp [Quantifiable]⟩
-  · have hp' : parenQ cap 3 e = false := by simpa using hp
+  by_cases hp : parenQ cap esc 3 e = true
+  · exact ⟨Pat.grp cap (e.both cap esc).2, by simp [hp], by simp [Quantifiable]⟩
+  · have hp' : parenQ cap esc 3 e = false := by simpa using hp
     simp only [hp', Bool.false_eq_true, ite_false]
     cases e with
     | alt os => simp [parenQ, Expr.precedence, Expr.isSingleCodepoint] at hp'
@@ -343,16 +350,14 @@ theorem subOf3_single (cap : Bool) (e : Expr) (hwf : e.WF) (hnr : e.isRep = fals
     | cat a b => simp [parenQ, Expr.precedence, Expr.isSingleCodepoint] at hp'
     | rep e q => simp [Expr.isRep] at hnr
     | lit c =>
-      have hsc : (Expr.lit c).isSingleCodepoint (cfgPlain cap) = true := by
-        cases hh : (Expr.lit c).isSingleCodepoint (cfgPlain cap) with
+      have hsc : (Expr.lit c).isSingleCodepoint (cfgPlain cap esc) = true := by
+        cases hh : (Expr.lit c).isSingleCodepoint (cfgPlain cap esc) with
         | true => rfl
         | false => simp [parenQ, Expr.precedence, hh] at hp'
-      simp only [Expr.isSingleCodepoint, cfgPlain, Bool.and_eq_true, beq_iff_eq] at hsc
-      have hlen : (flat c).length = 1 := by rw [← Expr.charCount_flat]; exact hsc.1
-      obtain ⟨x, _, hat, _⟩ := single_literal c hwf hlen
+      obtain ⟨x, _, hat, _⟩ := single_literal_cfg cap esc c hwf hsc
       exact ⟨Pat.chr x, by simp [Expr.both, hat, atomPat], by simp [Quantifiable]⟩
 
-theorem endsQS3_false (cap : Bool) (e : Expr) (hnr : e.isRep = false) : (!(parenQ cap 3 e) && e.endsQ cap) = false := by
+theorem endsQS3_false (cap esc : Bool) (e : Expr) (hnr : e.isRep = false) : (!(parenQ cap esc 3 e) && e.endsQ cap esc) = false := by
   cases e with
   | rep e q => simp [Expr.isRep] at hnr
   | cat a b => simp [parenQ, Expr.precedence, Expr.isSingleCodepoint]
@@ -365,16 +370,16 @@ end Grexv
 namespace Grexv
 open Spec
 
-theorem sub3_head' (cap : Bool) (fb : Bool) (e : Expr) (hwf : e.WF) (hnr : e.isRep = false) :
-    HeadOK' (R (fmtSub (cfgPlain cap) 3 fb e)) := by
+theorem sub3_head' (cap esc : Bool) (fb : Bool) (e : Expr) (hwf : e.WF) (hnr : e.isRep = false) :
+    HeadOK' (R (fmtSub (cfgPlain cap esc) 3 fb e)) := by
   rw [fmtSub_eq]
-  by_cases hp : parenQ cap 3 e = true
+  by_cases hp : parenQ cap esc 3 e = true
   · simp only [hp, ite_true]
     rw [R_append, R_lp]
     cases cap
-    · exact ⟨40, [63, 58] ++ R (fmtExpr (cfgPlain false) e ++ [41]), rfl, by decide⟩
-    · exact ⟨40, [] ++ R (fmtExpr (cfgPlain true) e ++ [41]), rfl, by decide⟩
-  · have hp' : parenQ cap 3 e = false := by simpa using hp
+    · exact ⟨40, [63, 58] ++ R (fmtExpr (cfgPlain false esc) e ++ [41]), rfl, by decide⟩
+    · exact ⟨40, [] ++ R (fmtExpr (cfgPlain true esc) e ++ [41]), rfl, by decide⟩
+  · have hp' : parenQ cap esc 3 e = false := by simpa using hp
     simp only [hp', Bool.false_eq_true, ite_false]
     cases e with
     | alt os => simp [parenQ, Expr.precedence, Expr.isSingleCodepoint] at hp'
@@ -385,180 +390,178 @@ theorem sub3_head' (cap : Bool) (fb : Bool) (e : Expr) (hwf : e.WF) (hnr : e.isR
       rw [fmtClass_text]
       exact ⟨91, _, rfl, by decide⟩
     | lit c =>
-      have hsc : (Expr.lit c).isSingleCodepoint (cfgPlain cap) = true := by
-        cases hh : (Expr.lit c).isSingleCodepoint (cfgPlain cap) with
+      have hsc : (Expr.lit c).isSingleCodepoint (cfgPlain cap esc) = true := by
+        cases hh : (Expr.lit c).isSingleCodepoint (cfgPlain cap esc) with
         | true => rfl
         | false => simp [parenQ, Expr.precedence, hh] at hp'
-      simp only [Expr.isSingleCodepoint, cfgPlain, Bool.and_eq_true, beq_iff_eq] at hsc
-      have hlen : (flat c).length = 1 := by rw [← Expr.charCount_flat]; exact hsc.1
-      obtain ⟨x, rfl, _, _⟩ := single_literal c hwf hlen
+      obtain ⟨x, rfl, _, _⟩ := single_literal_cfg cap esc c hwf hsc
       obtain ⟨as, hne, hb, hs⟩ := hwf _ List.mem_cons_self
       simp only [fmtExpr]
-      rw [R_fmtLiteral cap _ hwf]
+      rw [R_fmtLiteral cap esc _ hwf]
       simp only [List.flatMap_cons, List.flatMap_nil, List.append_nil]
       rw [hs, value_ofStr]
-      exact R_escape_head as hne hb
+      exact R_escape_head esc as hne hb
 
-theorem both_snd_nonalt (cap : Bool) (e : Expr) (h : e.isAlt = false) : (e.both cap).2 = catList (e.both cap).1 := by
+theorem both_snd_nonalt (cap esc : Bool) (e : Expr) (h : e.isAlt = false) : (e.both cap esc).2 = catList (e.both cap esc).1 := by
   cases e with
   | alt os => simp [Expr.isAlt] at h
   | _ => simp [Expr.both]
 
-theorem toks_snd_nonalt (cap : Bool) (e : Expr) (h : e.isAlt = false) : (e.toks cap).2 = (e.toks cap).1 := by
+theorem toks_snd_nonalt (cap esc : Bool) (e : Expr) (h : e.isAlt = false) : (e.toks cap esc).2 = (e.toks cap esc).1 := by
   cases e with
   | alt os => simp [Expr.isAlt] at h
   | _ => simp [Expr.toks]
 
-theorem parenQ_of_alt (cap : Bool) (outer : Nat) (ho : 2 ≤ outer) (e : Expr) (h : e.isAlt = true) : parenQ cap outer e = true := by
+theorem parenQ_of_alt (cap esc : Bool) (outer : Nat) (ho : 2 ≤ outer) (e : Expr) (h : e.isAlt = true) : parenQ cap esc outer e = true := by
   cases e with
   | alt os =>
     have : decide ((Expr.alt os).precedence < outer) = true := decide_eq_true (by simp only [Expr.precedence]; omega)
     simp only [parenQ, this, Expr.isSingleCodepoint, Bool.not_false, Bool.and_true]
   | _ => simp [Expr.isAlt] at h
 
-theorem parenQ1_false (cap : Bool) (e : Expr) : parenQ cap 1 e = false := by
+theorem parenQ1_false (cap esc : Bool) (e : Expr) : parenQ cap esc 1 e = false := by
   cases e <;> simp [parenQ, Expr.precedence]
 
 mutual
 /-- **print → parse, expression by expression** -/
-theorem Expr.pp (cap : Bool) : ∀ (e : Expr), e.WF → PP cap e
+theorem Expr.pp (cap esc : Bool) : ∀ (e : Expr), e.WF → PP cap esc e
   | .lit c, h => by
     have hi : ∀ (f : Nat) (rest : List Nat) (st : List Frame) (al co : List Pat),
-        ((Expr.lit c).endsQ cap = true → rest.head? ≠ some 63) →
-        parseLoop false (f + ((Expr.lit c).toks cap).1) (R (fmtExpr (cfgPlain cap) (.lit c)) ++ rest) st al co =
-          parseLoop false f rest st al (((Expr.lit c).both cap).1.reverse ++ co) := by
+        ((Expr.lit c).endsQ cap esc = true → rest.head? ≠ some 63) →
+        parseLoop false (f + ((Expr.lit c).toks cap esc).1) (R (fmtExpr (cfgPlain cap esc) (.lit c)) ++ rest) st al co =
+          parseLoop false f rest st al (((Expr.lit c).both cap esc).1.reverse ++ co) := by
       intro f rest st al co _
       simp only [fmtExpr, Expr.toks, Expr.both]
-      exact lex_literal cap c h f rest st al co
-    refine ⟨fun _ => hi, body_of_items cap _ rfl (both_snd_nonalt cap _ rfl) (toks_snd_nonalt cap _ rfl) hi, ?_, ?_, ?_⟩
-    · simp only [fmtExpr]; exact literal_head cap c h
-    · intro _; simp only [fmtExpr, Expr.toks]; exact literal_len cap c h
-    · simp only [fmtExpr, Expr.toks]; exact literal_len cap c h
+      exact lex_literal cap esc c h f rest st al co
+    refine ⟨fun _ => hi, body_of_items cap esc _ rfl (both_snd_nonalt cap esc _ rfl) (toks_snd_nonalt cap esc _ rfl) hi, ?_, ?_, ?_⟩
+    · simp only [fmtExpr]; exact literal_head cap esc c h
+    · intro _; simp only [fmtExpr, Expr.toks]; exact literal_len cap esc c h
+    · simp only [fmtExpr, Expr.toks]; exact literal_len cap esc c h
   | .cls cs, h => by
     have hi : ∀ (f : Nat) (rest : List Nat) (st : List Frame) (al co : List Pat),
-        ((Expr.cls cs).endsQ cap = true → rest.head? ≠ some 63) →
-        parseLoop false (f + ((Expr.cls cs).toks cap).1) (R (fmtExpr (cfgPlain cap) (.cls cs)) ++ rest) st al co =
-          parseLoop false f rest st al (((Expr.cls cs).both cap).1.reverse ++ co) := by
+        ((Expr.cls cs).endsQ cap esc = true → rest.head? ≠ some 63) →
+        parseLoop false (f + ((Expr.cls cs).toks cap esc).1) (R (fmtExpr (cfgPlain cap esc) (.cls cs)) ++ rest) st al co =
+          parseLoop false f rest st al (((Expr.cls cs).both cap esc).1.reverse ++ co) := by
       intro f rest st al co _
       simp only [fmtExpr, Expr.toks, Expr.both]
-      exact lex_class cap cs h.1 h.2.2 f rest st al co
-    have hlen : 1 ≤ (R (fmtExpr (cfgPlain cap) (.cls cs))).length := by
+      exact lex_class cap esc cs h.1 h.2.2 f rest st al co
+    have hlen : 1 ≤ (R (fmtExpr (cfgPlain cap esc) (.cls cs))).length := by
       simp only [fmtExpr]; rw [fmtClass_text]; simp
-    refine ⟨fun _ => hi, body_of_items cap _ rfl (both_snd_nonalt cap _ rfl) (toks_snd_nonalt cap _ rfl) hi, ?_, ?_, ?_⟩
+    refine ⟨fun _ => hi, body_of_items cap esc _ rfl (both_snd_nonalt cap esc _ rfl) (toks_snd_nonalt cap esc _ rfl) hi, ?_, ?_, ?_⟩
     · simp only [fmtExpr]; rw [fmtClass_text]; exact (show HeadOK' _ from ⟨91, _, rfl, by decide⟩).ok
     · intro _; simpa [Expr.toks] using hlen
     · simpa [Expr.toks] using hlen
   | .cat a b, h => by
-    have pa := Expr.pp cap a h.1
-    have pb := Expr.pp cap b h.2
-    have ha2 := parenQ_of_alt cap 2 (Nat.le_refl _) a
-    have hb2 := parenQ_of_alt cap 2 (Nat.le_refl _) b
-    have htext : R (fmtExpr (cfgPlain cap) (.cat a b)) = R (fmtSub (cfgPlain cap) 2 true a) ++ R (fmtSub (cfgPlain cap) 2 true b) := by
+    have pa := Expr.pp cap esc a h.1
+    have pb := Expr.pp cap esc b h.2
+    have ha2 := parenQ_of_alt cap esc 2 (Nat.le_refl _) a
+    have hb2 := parenQ_of_alt cap esc 2 (Nat.le_refl _) b
+    have htext : R (fmtExpr (cfgPlain cap esc) (.cat a b)) = R (fmtSub (cfgPlain cap esc) 2 true a) ++ R (fmtSub (cfgPlain cap esc) 2 true b) := by
       simp only [fmtExpr, R_append]
     have hi : ∀ (f : Nat) (rest : List Nat) (st : List Frame) (al co : List Pat),
-        ((Expr.cat a b).endsQ cap = true → rest.head? ≠ some 63) →
-        parseLoop false (f + ((Expr.cat a b).toks cap).1) (R (fmtExpr (cfgPlain cap) (.cat a b)) ++ rest) st al co =
-          parseLoop false f rest st al (((Expr.cat a b).both cap).1.reverse ++ co) := by
+        ((Expr.cat a b).endsQ cap esc = true → rest.head? ≠ some 63) →
+        parseLoop false (f + ((Expr.cat a b).toks cap esc).1) (R (fmtExpr (cfgPlain cap esc) (.cat a b)) ++ rest) st al co =
+          parseLoop false f rest st al (((Expr.cat a b).both cap esc).1.reverse ++ co) := by
       intro f rest st al co hq
       rw [htext]
       simp only [Expr.toks, Expr.both, List.append_assoc, List.reverse_append]
-      have hfuel : f + (subTok cap 2 a (a.toks cap).1 (a.toks cap).2 + subTok cap 2 b (b.toks cap).1 (b.toks cap).2) =
-          (f + subTok cap 2 b (b.toks cap).1 (b.toks cap).2) + subTok cap 2 a (a.toks cap).1 (a.toks cap).2 := by omega
-      rw [hfuel, sub_parse cap 2 true a pa ha2, sub_parse cap 2 true b pb hb2]
+      have hfuel : f + (subTok cap esc 2 a (a.toks cap esc).1 (a.toks cap esc).2 + subTok cap esc 2 b (b.toks cap esc).1 (b.toks cap esc).2) =
+          (f + subTok cap esc 2 b (b.toks cap esc).1 (b.toks cap esc).2) + subTok cap esc 2 a (a.toks cap esc).1 (a.toks cap esc).2 := by omega
+      rw [hfuel, sub_parse cap esc 2 true a pa ha2, sub_parse cap esc 2 true b pb hb2]
       · intro hqb
         apply hq
         simp only [Expr.endsQ, Bool.or_eq_true]
         exact Or.inr hqb
       · intro hqa
-        apply sub_head cap 2 true b pb
+        apply sub_head cap esc 2 true b pb
         apply hq
         simp only [Expr.endsQ, Bool.or_eq_true]
         exact Or.inl hqa
-    refine ⟨fun _ => hi, body_of_items cap _ rfl (both_snd_nonalt cap _ rfl) (toks_snd_nonalt cap _ rfl) hi, ?_, ?_, ?_⟩
-    · rw [htext]; exact headOK_append (sub_head cap 2 true a pa) (sub_head cap 2 true b pb)
+    refine ⟨fun _ => hi, body_of_items cap esc _ rfl (both_snd_nonalt cap esc _ rfl) (toks_snd_nonalt cap esc _ rfl) hi, ?_, ?_, ?_⟩
+    · rw [htext]; exact headOK_append (sub_head cap esc 2 true a pa) (sub_head cap esc 2 true b pb)
     · intro _
       rw [htext]
-      have := sub_len cap 2 true a pa ha2
-      have := sub_len cap 2 true b pb hb2
+      have := sub_len cap esc 2 true a pa ha2
+      have := sub_len cap esc 2 true b pb hb2
       simp only [Expr.toks, List.length_append]; omega
     · rw [htext]
-      have := sub_len cap 2 true a pa ha2
-      have := sub_len cap 2 true b pb hb2
+      have := sub_len cap esc 2 true a pa ha2
+      have := sub_len cap esc 2 true b pb hb2
       simp only [Expr.toks, List.length_append]; omega
   | .rep e q, h => by
     obtain ⟨rfl, hnr, hwf⟩ := h
-    have pe := Expr.pp cap e hwf
-    have he3 := parenQ_of_alt cap 3 (by omega) e
-    have htext : R (fmtExpr (cfgPlain cap) (.rep e .question)) = R (fmtSub (cfgPlain cap) 3 false e) ++ [63] := by
+    have pe := Expr.pp cap esc e hwf
+    have he3 := parenQ_of_alt cap esc 3 (by omega) e
+    have htext : R (fmtExpr (cfgPlain cap esc) (.rep e .question)) = R (fmtSub (cfgPlain cap esc) 3 false e) ++ [63] := by
       simp only [fmtExpr, R_append, Comp.quantifier, cfgPlain, paint, Gen.strQuestion, Bool.false_eq_true, ite_false,
         List.append_nil]
       rfl
-    obtain ⟨p, hp, hpq⟩ := subOf3_single cap e hwf hnr
+    obtain ⟨p, hp, hpq⟩ := subOf3_single cap esc e hwf hnr
     have hi : ∀ (f : Nat) (rest : List Nat) (st : List Frame) (al co : List Pat),
-        ((Expr.rep e .question).endsQ cap = true → rest.head? ≠ some 63) →
-        parseLoop false (f + ((Expr.rep e .question).toks cap).1) (R (fmtExpr (cfgPlain cap) (.rep e .question)) ++ rest) st al co =
-          parseLoop false f rest st al (((Expr.rep e .question).both cap).1.reverse ++ co) := by
+        ((Expr.rep e .question).endsQ cap esc = true → rest.head? ≠ some 63) →
+        parseLoop false (f + ((Expr.rep e .question).toks cap esc).1) (R (fmtExpr (cfgPlain cap esc) (.rep e .question)) ++ rest) st al co =
+          parseLoop false f rest st al (((Expr.rep e .question).both cap esc).1.reverse ++ co) := by
       intro f rest st al co hq
       rw [htext]
       simp only [Expr.toks, Expr.both, List.append_assoc, List.singleton_append]
-      have hfuel : f + (subTok cap 3 e (e.toks cap).1 (e.toks cap).2 + 1) =
-          (f + 1) + subTok cap 3 e (e.toks cap).1 (e.toks cap).2 := by omega
-      rw [hfuel, sub_parse cap 3 false e pe he3 (f + 1) (63 :: rest) st al co
-        (by rw [endsQS3_false cap e hnr]; intro hc; cases hc)]
+      have hfuel : f + (subTok cap esc 3 e (e.toks cap esc).1 (e.toks cap esc).2 + 1) =
+          (f + 1) + subTok cap esc 3 e (e.toks cap esc).1 (e.toks cap esc).2 := by omega
+      rw [hfuel, sub_parse cap esc 3 false e pe he3 (f + 1) (63 :: rest) st al co
+        (by rw [endsQS3_false cap esc e hnr]; intro hc; cases hc)]
       rw [hp]
       simp only [List.reverse_cons, List.reverse_nil, List.nil_append, List.singleton_append, optOf]
       exact step_opt f rest (hq rfl) p hpq co st al
-    have hsublen := sub_len cap 3 false e pe he3
-    refine ⟨fun _ => hi, body_of_items cap _ rfl (both_snd_nonalt cap _ rfl) (toks_snd_nonalt cap _ rfl) hi, ?_, ?_, ?_⟩
-    · rw [htext]; exact (headOK'_append_left _ (sub3_head' cap false e hwf hnr)).ok
+    have hsublen := sub_len cap esc 3 false e pe he3
+    refine ⟨fun _ => hi, body_of_items cap esc _ rfl (both_snd_nonalt cap esc _ rfl) (toks_snd_nonalt cap esc _ rfl) hi, ?_, ?_, ?_⟩
+    · rw [htext]; exact (headOK'_append_left _ (sub3_head' cap esc false e hwf hnr)).ok
     · intro _; rw [htext]; simp only [Expr.toks, List.length_append, List.length_singleton]; omega
     · rw [htext]; simp only [Expr.toks, List.length_append, List.length_singleton]; omega
   | .alt os, h => by
     obtain ⟨hne, hwfl⟩ := h
-    obtain ⟨hL, hH, hLen⟩ := Expr.ppL cap os hwfl hne
+    obtain ⟨hL, hH, hLen⟩ := Expr.ppL cap esc os hwfl hne
     refine ⟨fun hc => by simp [Expr.isAlt] at hc, ?_, ?_, fun hc => by simp [Expr.isAlt] at hc, ?_⟩
     · intro f rest fr st
       simp only [fmtExpr, Expr.toks, Expr.both]
       obtain ⟨al', co', hrun, hclose⟩ := hL (f + 1) (41 :: rest) (fr :: st) [] (by simp)
-      have hfuel : f + (Expr.toksL cap os + 1) = (f + 1) + Expr.toksL cap os := by omega
+      have hfuel : f + (Expr.toksL cap esc os + 1) = (f + 1) + Expr.toksL cap esc os := by omega
       rw [hfuel, hrun, step_rparen]
       simp only [closeFrame, hclose, List.reverse_nil, List.nil_append]
     · simp only [fmtExpr]; exact hH
     · simp only [fmtExpr, Expr.toks]; exact hLen
-theorem Expr.ppL (cap : Bool) : ∀ (os : List Expr), Expr.WFL os → os ≠ [] →
+theorem Expr.ppL (cap esc : Bool) : ∀ (os : List Expr), Expr.WFL os → os ≠ [] →
     (∀ (f : Nat) (rest : List Nat) (st : List Frame) (al : List Pat), rest.head? ≠ some 63 →
-      ∃ al' co', parseLoop false (f + Expr.toksL cap os) (R (fmtAlt (cfgPlain cap) os) ++ rest) st al [] =
+      ∃ al' co', parseLoop false (f + Expr.toksL cap esc os) (R (fmtAlt (cfgPlain cap esc) os) ++ rest) st al [] =
           parseLoop false f rest st al' co' ∧
-        (catList co'.reverse :: al').reverse = al.reverse ++ Expr.bothL cap os) ∧
-    HeadOK (R (fmtAlt (cfgPlain cap) os)) ∧ Expr.toksL cap os ≤ (R (fmtAlt (cfgPlain cap) os)).length
+        (catList co'.reverse :: al').reverse = al.reverse ++ Expr.bothL cap esc os) ∧
+    HeadOK (R (fmtAlt (cfgPlain cap esc) os)) ∧ Expr.toksL cap esc os ≤ (R (fmtAlt (cfgPlain cap esc) os)).length
   | [], _, hne => absurd rfl hne
   | [o], h, _ => by
-    have po := Expr.pp cap o h.2.1
-    have htext : fmtAlt (cfgPlain cap) [o] = fmtExpr (cfgPlain cap) o := by
+    have po := Expr.pp cap esc o h.2.1
+    have htext : fmtAlt (cfgPlain cap esc) [o] = fmtExpr (cfgPlain cap esc) o := by
       simp only [fmtAlt]; rw [fmtSub_eq, parenQ1_false]; simp
     refine ⟨?_, ?_, ?_⟩
     · intro f rest st al hr
-      refine ⟨al, (o.both cap).1.reverse, ?_, by simp [Expr.bothL]⟩
+      refine ⟨al, (o.both cap esc).1.reverse, ?_, by simp [Expr.bothL]⟩
       rw [htext]
       have := po.items h.1 f rest st al [] (fun _ => hr)
       simpa [Expr.toksL] using this
     · rw [htext]; exact po.head
     · rw [htext]; simpa [Expr.toksL] using po.len1 h.1
   | o :: o2 :: os, h, _ => by
-    have po := Expr.pp cap o h.2.1
-    obtain ⟨hL, hH, hLen⟩ := Expr.ppL cap (o2 :: os) h.2.2 (by simp)
-    have htext : R (fmtAlt (cfgPlain cap) (o :: o2 :: os)) =
-        R (fmtExpr (cfgPlain cap) o) ++ ([124] ++ R (fmtAlt (cfgPlain cap) (o2 :: os))) := by
+    have po := Expr.pp cap esc o h.2.1
+    obtain ⟨hL, hH, hLen⟩ := Expr.ppL cap esc (o2 :: os) h.2.2 (by simp)
+    have htext : R (fmtAlt (cfgPlain cap esc) (o :: o2 :: os)) =
+        R (fmtExpr (cfgPlain cap esc) o) ++ ([124] ++ R (fmtAlt (cfgPlain cap esc) (o2 :: os))) := by
       simp only [fmtAlt]
       rw [fmtSub_eq, parenQ1_false]
       simp only [Bool.false_eq_true, ite_false, cfgPlain, Comp.pipe, paint, Gen.strPipe, R_append]
       simp [show R [124] = [124] from by decide]
     refine ⟨?_, ?_, ?_⟩
     · intro f rest st al hr
-      obtain ⟨al', co', hrun, hclose⟩ := hL f rest st (catList (o.both cap).1 :: al) hr
+      obtain ⟨al', co', hrun, hclose⟩ := hL f rest st (catList (o.both cap esc).1 :: al) hr
       refine ⟨al', co', ?_, ?_⟩
       · rw [htext]
-        have hfuel : f + Expr.toksL cap (o :: o2 :: os) = ((f + Expr.toksL cap (o2 :: os)) + 1) + (o.toks cap).1 := by
+        have hfuel : f + Expr.toksL cap esc (o :: o2 :: os) = ((f + Expr.toksL cap esc (o2 :: os)) + 1) + (o.toks cap esc).1 := by
           simp only [Expr.toksL, List.isEmpty_cons, Bool.false_eq_true, ite_false]; omega
         rw [hfuel, List.append_assoc, po.items h.1 _ _ st al [] (by intro _; simp)]
         simp only [List.append_nil, List.singleton_append, List.cons_append, List.nil_append]
@@ -570,7 +573,7 @@ theorem Expr.ppL (cap : Bool) : ∀ (os : List Expr), Expr.WFL os → os ≠ [] 
       exact headOK_append po.head (show HeadOK' _ from ⟨124, _, rfl, by decide⟩).ok
     · rw [htext]
       have := po.len1 h.1
-      have e : Expr.toksL cap (o :: o2 :: os) = (o.toks cap).1 + 1 + Expr.toksL cap (o2 :: os) := by
+      have e : Expr.toksL cap esc (o :: o2 :: os) = (o.toks cap esc).1 + 1 + Expr.toksL cap esc (o2 :: os) := by
         rw [Expr.toksL]; simp
       rw [e]
       simp only [List.length_append, List.length_singleton]
